@@ -257,3 +257,14 @@ def run(ck):
     # ---- clause 5: wrapper delegation -----------------------------------------------------------------------
     n = common.wrapper_forwarding(ck, "5")
     ck.floor("5", "wrapper (impl, method) forwarding instances", n, 12 if ck.has("executor") else 9)
+    # ---- shared clauses demonstrated by seeding round 7 (the property broken from a distant module) --------------
+    from props import common as _c7
+    import importlib as _il
+    _m = lambda n: _il.import_module('props.' + n)
+    _c7.import_results(ck, _m("C01"), "4", None, "5")
+    if ck.has("executor"):
+        _c7.import_results(ck, _m("C10"), "4", "Executor", "1")  # futures (and the Async adapters they own) are dropped with the executor
+    _m("C14").lifecycle_set_follows(ck, "5")
+    _c7.import_results(ck, _m("C07"), "4", "DispatcherInner", "5")
+
+
